@@ -142,12 +142,32 @@ def regenerate_tables():
     """run the translator; it rewrites Generated/*.lean only when the content differs"""
     import glob
     log = ""
+    failed = []
     for script in sorted(glob.glob(os.path.join(VERIF, "harness", "gen_tables*.py"))):
         rc, out = _run([sys.executable, script], cwd=VERIF)
         log += out
         if rc != 0:
-            raise RuntimeError(os.path.basename(script) + " failed:\n" + out)
+            # a translator that cannot read the current source any more (e.g. a parser change makes
+            # a shipped pattern unparsable) must not turn every check into a machinery failure: its
+            # generated file stays as it was, the failure is recorded, and the properties that depend
+            # on that table treat their table obligations as broken (see prepare)
+            failed.append(os.path.basename(script))
+            log += "\nTRANSLATOR FAILED: %s\n" % os.path.basename(script)
+    FAILED_TRANSLATORS[:] = failed
     return log
+
+
+FAILED_TRANSLATORS = []
+# which properties consume which translator's output
+TRANSLATOR_USERS = {
+    "gen_tables.py": None,   # everybody
+    "gen_tables_c05.py": {"C05", "C06"},
+    "gen_tables_c06.py": {"C06"},
+    "gen_tables_c07.py": {"C07", "C06"},
+    "gen_tables_c12.py": {"C12", "C05"},
+    "gen_tables_c14.py": {"C14", "C15"},
+    "gen_tables_parsed.py": {"C05", "C14", "C15"},
+}
 
 
 def build(proof_modules: list[str]) -> BuildResult:
@@ -615,6 +635,12 @@ def prepare(run: Run, proof_modules: list[str], audit_prop: str | None = None, a
     hits = grep_forbidden(allow_tokens)
     for h in hits:
         run.audit_bad.append("forbidden token %s:%d: %s" % h)
+    for t in FAILED_TRANSLATORS:
+        users = TRANSLATOR_USERS.get(t, None)
+        if users is None or run.prop in users:
+            run.audit_bad.append("translator %s could not read the current source: the table obligations of %s are not re-checked" % (t, run.prop))
+        else:
+            run.extra_cov.setdefault("translators_failed_for_other_properties", []).append(t)
     if audit_prop and b.proofs_ok:
         thms, raw, ok = audit(audit_prop)
         if not ok:
